@@ -28,7 +28,7 @@ ID = "C08"
 LEAN_MODULE = "LiquidVerif.Props.C08"
 TRANSLATE = True
 RULE = (
-    "stream sweep: a generated program of the modelled fragment; an instrumented unlimited render gives the output size U, "
+    "stream sweep: a generated program of the modelled fragment (text/output/assign/capture/ifchanged/cycle/if/unless/with/for/tablerow/include/render, filters append/prepend/size); an instrumented unlimited render gives the output size U, "
     "the sizes measured after assignments, the products tested by raise_for_loop_limit and the depths tested by "
     "extend/copy; output_stream_limit takes 0,1,U-1,U,U+1,2U+1 and random values, local_namespace_limit and "
     "loop_iteration_limit take 0,1 and b-1,b,b+1 for observed boundaries b, context_depth_limit takes 0..max+2 (thinned "
@@ -53,7 +53,8 @@ ASSUMPTIONS = [
     "limits are configured as class attributes of a fresh Environment (templates are parsed under the configured block_nesting_limit)",
     "for local_namespace_limit and loop_iteration_limit the order used by the theorems identifies 0 with None (falsy test); the plain-order statement fails exactly there (known findings)",
     "context_depth_limit / block_nesting_limit have no 'unlimited' value; 'unlimited' means any larger value (theorem limits_monotone), the harness uses the defaults 30/30 as baseline",
-    "constructs outside the model (tablerow, case, unless, increment, liquid, macro/call, extends/block, with, translate, filters, break/continue) are covered by stream gen through the direct oracle only",
+    "constructs outside the model (case, increment, liquid, macro/call, extends/block, translate, break/continue, tablerow cols, filters other than append/prepend/size) are covered by stream gen through the direct oracle only",
+    "LAX/WARN: lax_limit_alters_output_counterexample shows the property fails there (a suppressed OutputStreamLimitError shortens the output); what does hold in every mode is C07's byte bound",
 ]
 MANIFEST = {
     "technique": "Lean 4 proof (one mutual functional induction: under a tighter limit configuration a render agrees with the looser one or raises an error of a limit that differs) + generated exception hierarchy and limit-check table decided against the model + differential correspondence with sweeps of all five limits",
